@@ -129,7 +129,7 @@ func Rewrite(t *rapid.T, cfg Cfg) *ast.Node {
 		root.Kids = append(root.Kids, piece(1))
 	}
 	if rapid.IntRange(0, 4).Draw(t, "rwend") == 0 {
-		root.Kids = append(root.Kids, ast.Anchor(rapid.SampledFrom([]string{"$", `\b`, `\z`}).Draw(t, "rwanchor")))
+		root.Kids = append(root.Kids, ast.Anchor(rapid.SampledFrom([]string{"$", `\b`, `\z`, `\B`}).Draw(t, "rwanchor")))
 	}
 	return root
 }
